@@ -12,7 +12,6 @@ def purge():
     """Forget every stdnum module: the next import re-executes the module code (fresh caches, registries)."""
     for k in [k for k in sys.modules if k == 'stdnum' or k.startswith('stdnum.')]:
         del sys.modules[k]
-    importlib.invalidate_caches()
 
 
 def canon(x, depth=0):
